@@ -223,6 +223,13 @@ var("network-as-plain-dicts", [(T, """                if state.should_yield(5000
 var("variations-as-tuple", [(T, "        return lru_variations(prefix)\n", "        return tuple(lru_variations(prefix))\n")],
     "expand_prefix returns a tuple")
 
+var("node-read-gains-a-parameter", [(N, "    def read(self, block):\n        data = self.storage.read(block)\n", "    def read(self, block, with_tail=True):\n        data = self.storage.read(block)\n"),
+                                    (N, "    def refresh(self):\n        self.read(self.block)\n", "    def refresh(self):\n        self.read(self.block, with_tail=True)\n")],
+    "an internal method wrapped by the monitors grows a keyword parameter (monitor wrappers must be signature-agnostic)")
+
+var("storage-write-keyword", [(N, "        block = self.storage.write(self.pack(), self.block)\n", "        block = self.storage.write(data=self.pack(), block=self.block)\n")],
+    "storage.write called with keyword arguments")
+
 
 def apply_variant(v):
     def f(copy):
